@@ -118,6 +118,8 @@ structure Payload where
   eof : Bool := true
   exc : Bool := false
   waiter : PWaiter := .none
+  /-- the parked reader's future was completed *with the exception* (`set_exception` found a waiter) -/
+  wakeExc : Bool := false
 deriving Repr, DecidableEq
 
 structure QMsg where
@@ -220,13 +222,14 @@ def setP (s : St) (i : Nat) (p : Payload) : St := { s with payloads := s.payload
 
 def pushCb (s : St) (c : Cb) : St := { s with ready := s.ready ++ [c] }
 
-/-- wake whoever is parked on payload `i` -/
-def wakeP (s : St) (i : Nat) : St :=
+/-- wake whoever is parked on payload `i`; `byExc`: the waiter future gets the exception (no data or
+eof reached the stream before it in this parser call) -/
+def wakeP (s : St) (i : Nat) (byExc : Bool := false) : St :=
   let p := getP s i
   match p.waiter with
   | .none => s
-  | .handler => pushCb (setP s i { p with waiter := .none }) .handlerWake
-  | .start => pushCb (setP s i { p with waiter := .none }) .startWake
+  | .handler => pushCb (setP s i { p with waiter := .none, wakeExc := byExc }) .handlerWake
+  | .start => pushCb (setP s i { p with waiter := .none, wakeExc := byExc }) .startWake
 
 /-- `BaseProtocol.resume_reading(resume_parser=False)` (called by `StreamReader.feed_eof`) -/
 def protoResumeNoParse (s : St) : St :=
@@ -239,7 +242,7 @@ def payloadEvent (s : St) (i chunks : Nat) (eof exc : Bool) : St :=
   if p.empty then s else
   let s := setP s i { p with chunks := p.chunks + chunks, eof := p.eof || eof, exc := p.exc || exc }
   let s := if eof then protoResumeNoParse s else s
-  if chunks > 0 || eof || exc then wakeP s i else s
+  if chunks > 0 || eof || exc then wakeP s i (exc && chunks == 0 && !eof) else s
 
 /-- `_pause_msg_queue_reading` -/
 def pauseMsgQ (s : St) : St :=
@@ -444,7 +447,7 @@ def runProg : Nat → St → Prog → St
       else if p.chunks > 0 then runProg fuel (drainChunks s c.idx p.chunks) (.read :: rest)
       else if p.eof then runProg fuel s rest
       else if !s.tPresent then handleError s c 500
-      else { setP s c.idx { p with waiter := .handler } with hpc := .reading rest }
+      else { setP s c.idx { p with waiter := .handler, wakeExc := false } with hpc := .reading rest }
     | .prepare withChunk :: rest =>
       if c.info.noStream then runProg fuel s rest else
       let s := updCur s (fun c => { c with outStarted := true })
@@ -564,7 +567,7 @@ def startRun : Nat → St → SCont → St
           else if p.chunks > 0 then startRun fuel (drainChunks (cancelLinger s) c.idx p.chunks) (.linger endT)
           else if !s.tPresent then startRun fuel (forceClose (cancelLinger s)) .decide
           else
-            let s := setP s c.idx { p with waiter := .start }
+            let s := setP s c.idx { p with waiter := .start, wakeExc := false }
             let s := match s.lingerTimer with
               | some _ => s
               | none => { s with lingerTimer := some (ceilDeadline s.cfg.ups s.now (endT - s.now), s.seq), seq := s.seq + 1 }
@@ -621,7 +624,7 @@ def runCb (s : St) (c : Cb) : St :=
         let p := getP s c.idx
         let s := setP s c.idx { p with waiter := .none }
         -- resumed inside `readany()`: unless the timeout struck, the chunks present now are popped first
-        let s := if !s.lingerTimedOut && p.chunks > 0 then drainChunks (cancelLinger s) c.idx p.chunks else s
+        let s := if !s.lingerTimedOut && p.chunks > 0 && !p.wakeExc then drainChunks (cancelLinger s) c.idx p.chunks else s
         startRun (fuelOf s) s (.linger endT)
       | none => s
     | _ => s
@@ -635,7 +638,7 @@ def runCb (s : St) (c : Cb) : St :=
           let p := getP s c.idx
           -- resumed inside `readany()`: the chunks present now are popped before anything is re-checked
           let s := setP s c.idx { p with waiter := .none }
-          let s := if p.chunks > 0 then drainChunks s c.idx p.chunks else s
+          let s := if p.chunks > 0 && !p.wakeExc then drainChunks s c.idx p.chunks else s
           some (runProg (fuelOf s) s (.read :: rest))
         | none => none
       | _ => none
